@@ -17,7 +17,8 @@ RULE = ("E1 with the interpreter's set-iteration order owned by the explorer "
         "1-3 homogeneous/heterogeneous machines, fewer machines than ready "
         "tasks included) x pairings, EVERY permutation of the hash order of "
         "the case's tasks (<=120) is executed (LIGHT: boundary trajectory + "
-        "task table + call log), first/last permutation and a back-to-back "
+        "task table + call log), likewise every permutation of the hash "
+        "order of the machines, first/last permutation and a back-to-back "
         "repeat in FULL (per-timestep table minus algtime, task table, event "
         "log); all must be identical.  Seam binding: the same cases in "
         "separate interpreter processes under K real PYTHONHASHSEED values "
@@ -63,7 +64,7 @@ def ready_cases(tier):
     for machines in clusters:
         M = len(machines)
         for label, wa in dags:
-            for two in ((False,) if tier != "thorough" else (False, True)):
+            for two in (False, True):
                 obs = [mkobs("a", 0, 1, 1, 1, 1, "wa")]
                 wfs = {"wa": wa}
                 if two:
@@ -86,7 +87,10 @@ def ready_cases(tier):
                     algs.append({"kind": "dynamic", "assign": a})
                     algs.append({"kind": "greedy", "assign": a})
                 for alg in algs:
-                    out.append(("S-ready/%s" % alg["kind"],
+                    if two and tier != "thorough" and alg["kind"] != "batch":
+                        continue
+                    out.append(("S-ready%s/%s" % ("2" if two else "",
+                                                  alg["kind"]),
                                 dict(case, alg=alg)))
     return out
 
@@ -97,6 +101,47 @@ def task_keys(case):
         for n in case["wfs"][o["wf"]]["nodes"]:
             ks.append("%s:%s" % (o["name"], n[0]))
     return ks
+
+
+def machine_keys(case):
+    return ["M:%s" % m for m in world.machine_ids(case["cfg"])]
+
+
+def hash_orders(case):
+    """every permutation of the task hash order (machines in identity
+    order) and every permutation of the machine hash order (tasks in
+    identity order): objects hashed by a string id are the only way the hash
+    seed can reach a run.  Values stay below 8 per class so that CPython
+    sets iterate in ascending hash order."""
+    tk, mk = task_keys(case), machine_keys(case)
+    if len(tk) > 5:
+        # per-workflow permutations, other workflows in identity order
+        groups = {}
+        for k in tk:
+            groups.setdefault(k.split(":")[0], []).append(k)
+        seen = set()
+        for g, keys in groups.items():
+            for perm in itertools.permutations(range(len(keys))):
+                hm = {k: i for i, k in enumerate(tk)}
+                base = [hm[k] for k in keys]
+                for k, p in zip(keys, perm):
+                    hm[k] = base[p]
+                hm.update({k: i for i, k in enumerate(mk)})
+                key = tuple(sorted(hm.items()))
+                if key not in seen:
+                    seen.add(key)
+                    yield hm
+    else:
+        for perm in itertools.permutations(range(len(tk))):
+            hm = dict(zip(tk, perm))
+            hm.update({k: i for i, k in enumerate(mk)})
+            yield hm
+    for perm in itertools.permutations(range(len(mk))):
+        if list(perm) == list(range(len(mk))):
+            continue
+        hm = {k: i for i, k in enumerate(tk)}
+        hm.update(dict(zip(mk, perm)))
+        yield hm
 
 
 def light_sig(case, hm):
@@ -136,11 +181,13 @@ def explain(a, b):
 def run(rep, tier, seed):
     rep.rule = RULE
     rep.assumptions = [
-        "permutations are time-invariant total orders of the task ids of a "
-        "case (<=5 tasks => all 120 orders)",
-        "the hash seed influences a run only through iteration order of sets "
-        "of Task objects (Task.__hash__ = hash(id)); checked by the "
-        "cross-process runs"]
+        "hash orders are time-invariant total orders: every permutation of "
+        "the task ids (<=5 tasks => all 120; per workflow beyond that) with "
+        "machines in identity order, and every permutation of the machine "
+        "ids with tasks in identity order (not their product)",
+        "the hash seed can reach a run only through objects hashed by a "
+        "string id (Task, Machine); bound to the interpreter by the "
+        "cross-process runs under real PYTHONHASHSEED values"]
     seam_selftest()
     cs = common.rotate(ready_cases(tier), seed)
 
@@ -152,8 +199,7 @@ def run(rep, tier, seed):
         nev = 0
         nruns = 0
         base = None
-        for perm in itertools.permutations(range(n)):
-            hm = dict(zip(keys, perm))
+        for hm in hash_orders(case):
             sig, ne = light_sig(case, hm)
             nev += ne
             nruns += 1
@@ -171,8 +217,11 @@ def run(rep, tier, seed):
                         "hash_order_a": sigs[base],
                         "hash_order_b": sigs[others[0]]}))
         # FULL: first/last permutation + immediate repeat
+        mk = machine_keys(case)
         ident = dict(zip(keys, range(n)))
+        ident.update({k: i for i, k in enumerate(mk)})
         rev = dict(zip(keys, reversed(range(n))))
+        rev.update({k: len(mk) - 1 - i for i, k in enumerate(mk)})
         f1 = full_out(case, ident)
         f2 = full_out(case, ident)
         f3 = full_out(case, rev)
@@ -206,9 +255,13 @@ def run(rep, tier, seed):
                     len(task_keys(cs[0][1]))})
     rep.extra["states_note"] = "states = distinct static cases"
     # ---- cross-process binding under real hash seeds ----------------------
-    K = 64 if tier == "thorough" else 8
-    ncases = 24 if tier == "thorough" else 6
-    idx = list(range(0, len(cs), max(1, len(cs) // ncases)))[:ncases]
+    K = 32 if tier == "thorough" else 4
+    ncases = 48 if tier == "thorough" else 16
+    pri = [i for i, (sc, c) in enumerate(cs) if sc.startswith("S-ready2")]
+    rest = [i for i in range(len(cs)) if i not in set(pri)]
+    pri = pri[::max(1, len(pri) // (ncases // 2))][:ncases // 2]
+    rest = rest[::max(1, len(rest) // (ncases - len(pri)))][:ncases - len(pri)]
+    idx = pri + rest
     seeds = [((seed * 7919 + 104729 * k) % 4294967295) + 1 for k in range(K)]
     jobs = [(i, sd) for i in idx for sd in seeds]
 
@@ -267,19 +320,23 @@ def replay(payload):
         return [{"clause": a, "cause": b, "detail": c} for a, b, c in vs]
     sigs = {}
     base = None
-    for perm in itertools.permutations(range(n)):
-        sig, _ = light_sig(case, dict(zip(keys, perm)))
+    for hm in hash_orders(case):
+        sig, _ = light_sig(case, hm)
         if base is None:
             base = sig
-        sigs.setdefault(sig, perm)
+        sigs.setdefault(sig, hm)
     if len(sigs) > 1:
         other = [s for s in sigs if s != base][0]
         vs.append(("C10.same-across-hash-orders",
                    "%s-depends-on-set-order:%s" % (
                        explain(base, other), case["alg"]["kind"]), None))
+    mk = machine_keys(case)
     ident = dict(zip(keys, range(n)))
+    ident.update({k: i for i, k in enumerate(mk)})
+    rev = dict(zip(keys, reversed(range(n))))
+    rev.update({k: len(mk) - 1 - i for i, k in enumerate(mk)})
     f1, f2 = full_out(case, ident), full_out(case, ident)
-    f3 = full_out(case, dict(zip(keys, reversed(range(n)))))
+    f3 = full_out(case, rev)
     if f1 != f2:
         vs.append(("C10.same-in-one-process",
                    "back-to-back-runs-differ:%s" % case["alg"]["kind"],
